@@ -75,4 +75,53 @@ Section Pass.
     | Act a :: r => fstate (fapply f a) r
     | Line _ :: r => fstate f r
     end.
+
+  (* ---- FilterLines in front of a BOUNDED log channel whose consumer reads when it pleases
+          (file.go: w has capacity 10; the writer may be slow or stalled).  The send  w <- line
+          is a plain blocking send: with the channel full the goroutine waits - it takes no
+          further event and drops nothing.  A schedule says who moves next; a move that is not
+          possible (filter blocked on a full channel, consumer facing an empty one) is skipped. ---- *)
+  Record pipe := mkp { pf : filt; pend : list fev; pbuf : list string; deliv : list string }.
+
+  Inductive pact :=
+  | StepFilter        (* FilterLines handles its next event; a permitted line goes into the channel *)
+  | StepConsumer      (* the consumer takes the oldest line out of the channel *)
+  | StepRendezvous.   (* capacity 0: FilterLines hands a permitted line straight to a ready consumer *)
+
+  Definition pstep (cap : nat) (p : pipe) (a : pact) : option pipe :=
+    match a with
+    | StepConsumer =>
+        match pbuf p with
+        | [] => None
+        | x :: r => Some (mkp (pf p) (pend p) r (deliv p ++ [x]))
+        end
+    | StepFilter =>
+        match pend p with
+        | [] => None
+        | Act c :: r => Some (mkp (fapply (pf p) c) r (pbuf p) (deliv p))
+        | Line s :: r =>
+            if pass (pf p) s then
+              if (length (pbuf p) <? cap)%nat then Some (mkp (pf p) r (pbuf p ++ [s]) (deliv p))
+              else None
+            else Some (mkp (pf p) r (pbuf p) (deliv p))
+        end
+    | StepRendezvous =>
+        match pend p, pbuf p with
+        | Line s :: r, [] =>
+            if pass (pf p) s then Some (mkp (pf p) r [] (deliv p ++ [s])) else None
+        | _, _ => None
+        end
+    end.
+
+  Definition pmove (cap : nat) (p : pipe) (a : pact) : pipe :=
+    match pstep cap p a with Some q => q | None => p end.
+
+  Definition prun (cap : nat) (p : pipe) (sched : list pact) : pipe := fold_left (pmove cap) sched p.
+
+  Definition pinit (evs : list fev) : pipe := mkp fnew evs [] [].
+
+  Definition pdone (p : pipe) : bool := is_nil (pend p) && is_nil (pbuf p).
+
+  (* twice the events still to handle plus the lines in the channel: every move lowers it *)
+  Definition pmeasure (p : pipe) : nat := 2 * length (pend p) + length (pbuf p).
 End Pass.
